@@ -369,14 +369,11 @@ err_t bakeBMQVStep3(octet out[], const octet in[], const bake_cert* certb,
 	t[n / 2] = 1;
 	if (!ecMulA(Qb, Qb, s->ec, t, n / 2 + 1, stack))
 		return ERR_BAD_PARAMS;
-	if (!ecpSubAA(Vb, Vb, Qb, s->ec, stack))
+	if (!ecpSubAA(Vb, Vb, Qb, s->ec, stack) ||
+		!ecMulA(Vb, Vb, s->ec, sa, n, stack))
 		qrTo(K, s->ec->base, s->ec->f, stack);
 	else
-	{
-		if (!ecMulA(Vb, Vb, s->ec, sa, n, stack))
-			return ERR_BAD_PARAMS;
 		qrTo(K, ecX(Vb), s->ec->f, stack);
-	}
 	// K <- beltHash(<K>_2l || certa || certb || helloa || hellob)
 	beltHashStart(stack);
 	beltHashStepH(K, no, stack);
@@ -489,14 +486,11 @@ err_t bakeBMQVStep4(octet out[], const octet in[], const bake_cert* certa,
 	t[n / 2] = 1;
 	if (!ecMulA(Qa, Qa, s->ec, t, n / 2 + 1, stack))
 		return ERR_BAD_PARAMS;
-	if (!ecpSubAA(Va, Va, Qa, s->ec, stack))
+	if (!ecpSubAA(Va, Va, Qa, s->ec, stack) ||
+		!ecMulA(Va, Va, s->ec, sb, n, stack))
 		qrTo(K, s->ec->base, s->ec->f, stack);
 	else
-	{
-		if (!ecMulA(Va, Va, s->ec, sb, n, stack))
-			return ERR_BAD_PARAMS;
 		qrTo(K, ecX(Va), s->ec->f, stack);
-	}
 	// K <- beltHash(<K>_2l || certa || certb || helloa || hellob)
 	beltHashStart(stack);
 	beltHashStepH(K, no, stack);
